@@ -151,6 +151,12 @@ func (x *heapInst) Ops() []space.Op {
 	for _, s := range startSlices {
 		ops = append(ops, space.Op{Name: "Init", Args: s})
 	}
+	if n >= 1 {
+		ops = append(ops, space.Op{Name: "PopAllStop", Args: []int{1}})
+		for v := 0; v < numValues; v++ {
+			ops = append(ops, space.Op{Name: "PopAllPush", Args: []int{v}})
+		}
+	}
 	return ops
 }
 
@@ -188,6 +194,67 @@ func (x *heapInst) apply(op space.Op) *space.Mismatch {
 		x.stale = e
 		if e.Index() != -1 {
 			return mm("Element.Index|departed-not-minus-one", "the element returned by Pop reports Index() = %d, want -1", e.Index())
+		}
+
+	case "PopAllStop":
+		before := backing(x.h)
+		var got []int
+		for v := range x.h.PopAll() {
+			got = append(got, v)
+			break
+		}
+		after := backing(x.h)
+		in := map[*hElem]bool{}
+		for _, e := range after {
+			in[e] = true
+		}
+		var gone []*hElem
+		for _, e := range before {
+			if !in[e] {
+				gone = append(gone, e)
+			}
+		}
+		if len(got) != 1 || len(gone) != 1 || len(after) != len(before)-1 {
+			return mm("Heap.PopAll|element-lost-or-duplicated", "PopAll stopped by the consumer after one element yielded %v and %d elements left the heap (had %d, has %d)", got, len(gone), len(before), len(after))
+		}
+		e := gone[0]
+		if e.Value != got[0] {
+			return mm("Heap.PopAll|element-lost-or-duplicated", "PopAll yielded %d but the element that left the heap has Value %d", got[0], e.Value)
+		}
+		if m := x.checkMin("PopAll", e); m != nil {
+			return m
+		}
+		delete(x.live, e)
+		x.stale = e
+		if e.Index() != -1 {
+			return mm("Element.Index|departed-not-minus-one", "the element yielded by PopAll reports Index() = %d, want -1", e.Index())
+		}
+
+	case "PopAllPush":
+		pv := op.Args[0]
+		before := backing(x.h)
+		want := append(x.values(), pv)
+		var got []int
+		for v := range x.h.PopAll() {
+			if len(got) == 0 {
+				x.h.Push(pv)
+			}
+			got = append(got, v)
+			if len(got) > len(want)+2 {
+				break
+			}
+		}
+		if !sameMultiset(got, want) {
+			return mm("Heap.PopAll|element-lost-or-duplicated", "PopAll with Push(%d) while handling the first element yielded %v, want a permutation of %v", pv, got, sorted(want))
+		}
+		x.live = map[*hElem]int{}
+		if len(before) > 0 {
+			x.stale = before[0]
+		}
+		for i, e := range before {
+			if e.Index() != -1 {
+				return mm("Element.Index|departed-not-minus-one", "after PopAll the element that was at position %d reports Index() = %d, want -1", i, e.Index())
+			}
 		}
 
 	case "Peek":
